@@ -237,6 +237,8 @@ def rand_stmts(rnd, n, names, infunc, nested=False):
             args = rnd.sample(['x', 'y', 'n'], rnd.randint(0, 2))
             f = {'name': rnd.choice(['f1', 'f2']), 'statements': rand_stmts(rnd, rnd.randint(0, 8), ['x', 'y', 'n', 'm'], 1, nested)}
             if args:
+                if rnd.random() < 0.12:
+                    args = args + [args[0]]  # a repeated parameter name (lint warns, the model is valid): the LAST occurrence decides - null when no argument reaches it
                 f['args'] = args
                 if rnd.random() < 0.2:
                     f['lastArgArray'] = True
@@ -315,6 +317,11 @@ def run_call_order(acc, api):
         {'statements': [{'jump': {'label': 'L', 'expr': call('if', V('null'))}}, {'jump': {'label': 'L', 'expr': call('if', N(1), N(0))}}, log(call('if', N(1))), log(call('if', N(0), N(5))), {'label': 'L'},
                         {'function': {'name': 'kk', 'statements': [{'return': {'expr': call('if', V('null'), N(1))}}]}}, log(call('kk')), log(call('kk'))]},
     ]
+    # a repeated parameter name: parameters are bound one by one in order, so the LAST occurrence decides (null when no argument reaches it)
+    dup = {'function': {'name': 'pick', 'args': ['a', 'b', 'a'], 'statements': [{'return': {'expr': call('arrayNew', V('a'), V('b'))}}]}}
+    dup_rest = {'function': {'name': 'pickr', 'args': ['a', 'b', 'a'], 'lastArgArray': True, 'statements': [{'return': {'expr': call('arrayNew', V('a'), V('b'))}}]}}
+    models.append({'statements': [dup, dup_rest, log(call('pick', N(1), N(2))), log(call('pick', N(1), N(2), N(3))), log(call('pick', N(1))), log(call('pick')),
+                                  log(call('pickr', N(1), N(2))), log(call('pickr', N(1), N(2), N(3), N(4))), log(call('pickr', N(1)))]})
     for plain in models:
         for rep in range(2):
             check_model(freeze(plain), plain, {}, 300, acc, api, lambda: {'model': plain, 'init': {}, 'limit': 300})
